@@ -186,6 +186,7 @@ Get ==
 \* "next"    response.Next(k)          k = identity of the new continuation (parameter id)
 \* "reply"   response.Reply(v)         sequence number = stored + 1
 \* "restart" response.Reply(RESTART)   sequence number = 1
+\* "xreply"  Reply with a body of another AAA family than the request's packet type: the header still mirrors the request
 \* "badreply" Reply with a body that fails its own validation: nothing written, header untouched
 HStep(id) ==
    /\ conn = "open" /\ pc = "run"
@@ -196,7 +197,7 @@ HStep(id) ==
            /\ CASE op = "next" ->
                      /\ resp' = [resp EXCEPT !.next = id]
                      /\ UNCHANGED << hi, viol, wrote >>
-                [] op \in {"reply", "restart"} ->
+                [] op \in {"reply", "restart", "xreply"} ->
                      LET sq == IF op = "restart" THEN 1 ELSE resp.seq + 1
                          w == [sid |-> s, ty |-> cur.ty, min |-> cur.min, fl |-> cur.fl, seq |-> sq, err |-> FALSE]
                          written == sq <= 255
